@@ -538,6 +538,8 @@ def d1_same_store_dispatcher(ctx, rep):
                     targ = bpc.arg_term(s2.bb, 1)
                     # argument tuple -> upvar -> creation site in dispatch_thunk
                     ups = [st for st in subterms(targ) if st[0] == "upvar"]
+                    if targ[0] == "agg" and targ[1] == "tuple" and not targ[2]:
+                        continue  # a payload called without arguments is a task, not a thunk
                     good = False
                     det = term_str(targ)
                     for u in ups:
@@ -546,6 +548,30 @@ def d1_same_store_dispatcher(ctx, rep):
                             det = term_str(r[1])
                             if strip_wrap(r[1]) == ("param", 1):
                                 good = True
+                    if not good and targ[0] == "agg" and targ[1] == "tuple" and len(targ[2]) == 1:
+                        # the dispatcher travels in a private struct / enum next to the thunk
+                        # (`ThunkCall { dispatcher, thunk }`): follow the field to where it was built
+                        from mirq.prov import mk_field, mk_vfield
+
+                        def subst(t_):
+                            if t_[0] == "upvar":
+                                r_ = ctx.prog.upvar_term(c, t_[1])
+                                return r_[1] if r_ and r_[0].path == dt.path else t_
+                            if t_[0] == "field":
+                                return mk_field(subst(t_[1]), t_[2])
+                            if t_[0] == "vfield":
+                                return mk_vfield(subst(t_[1]), t_[2], t_[3])
+                            if t_[0] in ("wrap",):
+                                return (t_[0], t_[1], subst(t_[2]))
+                            if t_[0] in ("clone",):
+                                return (t_[0], subst(t_[1]))
+                            return t_
+                        try:
+                            ot = subst(targ[2][0])
+                            det = term_str(ot)
+                            good = strip_clone(strip_wrap(ot)) == ("param", 1)
+                        except Exception:
+                            pass
                     rep.check(good, R, "thunk-dispatcher:%s" % short(dt.path), s2.where, "thunk receives Box(self.clone()) (%s)" % det, "thunk receives %s, not a handle of the same store" % det)
                     n += 1
     except AnchorMissing as e:
